@@ -675,6 +675,9 @@ func randVal(c *core.Ctx, small bool) val {
 		if r.Intn(4) == 0 {
 			b = []byte("héllo wörld ✓")
 		}
+		if len(b) > 0 && r.Intn(4) == 0 { // a NUL somewhere: the sender truncates there
+			b[r.Intn(len(b))] = 0
+		}
 		if b == nil {
 			b = []byte{}
 		}
@@ -690,7 +693,7 @@ func randVal(c *core.Ctx, small bool) val {
 func gen(c *core.Ctx) error {
 	c.Rule("encode: random and boundary value sequences (chars, integers of every width, strings, byte strings, doubles as 64-bit patterns) through the real Message writer on a recording stream, compared frame by frame with the model writer and byte for byte with an independent format encoder (math/big for doubles); decode: the encoded bytes re-cut at every single position (short sequences, every special double) and random multi-cuts, plus malformed inputs and integer pairs no encoder produces, through the real Message reader, compared op by op (also after an error result) with the model reader; oracles on the implementation: layout = format definition, decoded = sent (doubles: |decoded-sent| <= |sent|*2^-30 in exact rationals and bit-equal to the math/big reference decoder), EOM only on the last frame. non-trivial = decode case in which every Get succeeded, or encode case; distinct by (mode, values, cuts)")
 	c.Assume("float->int32 conversion of NaN/Inf is implementation-defined in Go; the model has the amd64 semantics (CVTTSD2SL, -2^31) and NaN/Inf cases are compared only when GOARCH=amd64 (this run: " + runtime.GOARCH + ")")
-	nSeq := 48
+	nSeq := 42
 	nBig := 6
 	if !c.Quick() {
 		nSeq, nBig = 600, 40
@@ -758,6 +761,52 @@ func gen(c *core.Ctx) error {
 			}
 			if i < 2 {
 				c.Sample(map[string]interface{}{"enc": enc, "vals": vs, "bytes": len(all), "single_cuts": len(cutsList) - 4})
+			}
+		}
+		// 2b. strings containing NULs (first, middle, last position, several, only NULs), through
+		// PutString AND PutStringBytes, followed by further values: layout oracle on the whole
+		// message and round trip of the FOLLOWING values (a wrong length prefix misaligns them)
+		nulInputs := [][]byte{
+			{0}, {0, 0}, {0, 'a', 'b'}, {'a', 0, 'b'}, {'a', 'b', 0}, {'a', 0, 0, 'b'}, {'a', 0, 'b', 0, 'c'}, {0, 'a', 0},
+			[]byte("key = \"va\x00lue\""), []byte("trailing nul and more\x00\x00\x00"), append(bytes.Repeat([]byte{'x'}, 40), 0, 'y', 'z'),
+			{0xad, 0, 'q'}, {'q', 0, 0xad},
+		}
+		for _, in := range nulInputs {
+			for _, kind := range []string{"str", "strb"} {
+				follow := [][]val{
+					{{Kind: "int", I: -3}, {Kind: "str", B: []byte("next")}, {Kind: "char", I: 0x21}},
+					{{Kind: kind, B: []byte{'z', 0, 'w'}}, {Kind: "uint32", I: 4000000000}},
+					{},
+				}
+				for fi, fol := range follow {
+					vs := append([]val{{Kind: "char", I: 0x3c}, {Kind: kind, B: append([]byte(nil), in...)}}, fol...)
+					fr, ok := encodeCase(c, enc, vs)
+					if !ok {
+						continue
+					}
+					c.Count("enc-nul-" + kind)
+					all := concat(fr)
+					var exp []gres
+					for _, x := range vs {
+						exp = append(exp, expect(x))
+					}
+					cuts := [][]int{{}, {len(all) / 2}, {1, len(all) - 1}}
+					if fi > 0 && c.Quick() {
+						cuts = cuts[1:2]
+					}
+					if fi == 0 {
+						var every []int
+						for p := 1; p < len(all); p++ {
+							every = append(every, p)
+						}
+						cuts = append(cuts, every)
+					}
+					for _, cs := range cuts {
+						desc := map[string]interface{}{"kind": "dec", "enc": enc, "vals": vs, "cuts": cs}
+						decodeCase(c, enc, mock.Cut(all, cs), opsFor(vs), exp, desc)
+						c.Nontrivial(fmt.Sprint("nul", enc, kind, in, fi, cs))
+					}
+				}
 			}
 		}
 		// 3. sizes around the frame targets: strings / bytes built from payload descriptors
